@@ -274,6 +274,9 @@ def _r194(ctx: Ctx) -> None:
         dict(data_dir='D', sizes='2x3x4', decoder_class='MatchingDecoder', bias='X', eta='3', prob='0.05,0.07',
              code_class='Toric3DCode', noise_class='PauliErrorModel', deformation_name=None, method='direct',
              label='mylabel'),
+        dict(data_dir='D', sizes='3,4', decoder_class='MatchingDecoder', bias='Y', eta='30,100', prob='0.02,0.04,0.06',
+             code_class='Toric2DCode', noise_class='PauliErrorModel', deformation_name=None, method='splitting',
+             label='split'),
     ]
     for ri, req in enumerate(requests):
         hooks = _HGen()
@@ -313,6 +316,26 @@ def _r194(ctx: Ctx) -> None:
                 got = []
                 for s_ in sims:
                     c = _ctor(s_)
+                    if req['method'] == 'splitting':
+                        if not c or c[0] != 'SplittingSimulation' or len(c[1]) < 4:
+                            bad = f'not a SplittingSimulation(code, error_model, decoders, error_rates): {s_!r}'
+                            break
+                        code, em, decs, rts = c[1][:4]
+                        if 'n_init_runs' not in c[2]:
+                            bad = 'SplittingSimulation built without n_init_runs'
+                        if not (isinstance(decs, list) and len(decs) == len(rates) and
+                                [(_ctor(d)[2] or {}).get('error_rate') for d in decs] == list(rts)):
+                            bad = f'splitting decoders {decs!r} are not one per error rate {rts!r}'
+                            break
+                        cc, ec, dc = _ctor(code), _ctor(em), _ctor(decs[0])
+                        if cc[0] != req['code_class'] or ec[0] != req['noise_class'] or dc[0] != req['decoder_class']:
+                            bad = f'classes {cc[0]}/{ec[0]}/{dc[0]} differ from the requested names'
+                        for r_ in rts:
+                            got.append((_freeze(cc[2] or cc[1]), r_))
+                        direction = {k: v for k, v in (ec[2] or {}).items() if k.startswith('r_')}
+                        seen_dirs.append(tuple(sorted(direction.items())))
+                        bad = bad or _params_accepted(ctx, cc, ec, dc)
+                        continue
                     if not c or c[0] != 'DirectSimulation':
                         bad = f'not a DirectSimulation: {s_!r}'
                         break
@@ -364,7 +387,7 @@ def run(ctx: Ctx) -> None:
     ctx.rule('R19.1', 'a file written inside a loop has a path depending on the loop variable', floor=1)
     ctx.rule('R19.2', 'inclusive float ranges stop a sub-step after max', floor=2)
     ctx.rule('R19.3', 'direction from bias ratio: r_bias on the requested axis, sum 1; inf sentinel', floor=16)
-    ctx.rule('R19.4', 'generated specifications read back as exactly sizes x rates per bias ratio', floor=8)
+    ctx.rule('R19.4', 'generated specifications read back as exactly sizes x rates per bias ratio', floor=12)
     ctx.trust('np.arange(lo, hi + step/2, step) on a decimal grid has round-off far below step/2')
     _r191(ctx)
     _r192(ctx)
